@@ -4,7 +4,8 @@
    touch the problem: the breach is injected by moving the bound just below the value the tour reports).
    Mirrored operator by operator in tools/props/c12.py (`mutate`), which applies the same surgery to the JSON documents that
    are given to the REAL checker; the mirror is validated on every generated site through `sol_fp` / `prob_fp`.
-   Not generated (and therefore no operator here): relations, breaks (notes/E2E.md "NOT generated").  No proofs in this file. *)
+   "Misplaced break" (E2EX3): MBreakLoc (the break is reported at another location), MBreakDup (taken twice), MBreakDrop (taken
+   out of the tour).  No proofs in this file. *)
 From VRP Require Import Base.Tac Model.Core Spec.Feasible Spec.Valid.
 
 (* ------------------------------------------------------------------ list surgery *)
@@ -45,6 +46,19 @@ Definition add_arr (d : Z) (st : sstop) := mkSStop (ss_loc st) (ss_arr st + d) (
 Definition set_acts (f : list sact -> list sact) (st : sstop) :=
   mkSStop (ss_loc st) (ss_arr st) (ss_dep st) (ss_load st) (ss_dist st) (f (ss_acts st)).
 Definition set_job (j : Z) (a : sact) := mkSAct j (sa_kind a) (sa_loc a) (sa_time a) (sa_tag a).
+Definition set_loc (l : Z) (a : sact) := mkSAct (sa_job a) (sa_kind a) (Some l) (sa_time a) (sa_tag a).
+(* element n listed twice (the copy right behind the original) *)
+Fixpoint dup_at {A} (n : nat) (l : list A) : list A :=
+  match l, n with
+  | [], _ => []
+  | x :: r, O => x :: x :: r
+  | x :: r, S n' => x :: dup_at n' r
+  end.
+Definition is_break_sact (a : sact) : bool := sa_kind a =? 12.
+(* reported service interval of an activity of stop st (its own `time`, or the stop's schedule when omitted) *)
+Definition act_span (st : sstop) (a : sact) : Z * Z := match sa_time a with Some t => t | None => (ss_arr st, ss_dep st) end.
+(* a break activity that takes time (a break of duration 0 can be listed twice / left out without any trace in the document) *)
+Definition long_break (st : sstop) (a : sact) : bool := is_break_sact a && (fst (act_span st a) <? snd (act_span st a)).
 
 (* statistic field f (order of stat_fields: 0 cost, 1 distance, 2 duration, 3 driving, 4 serving, 5 waiting, 6 break) += d *)
 Definition add_stat (f : nat) (d : Z) (s : sstat) : sstat :=
@@ -108,7 +122,11 @@ Inductive mutation :=
 (* limits: the limit of the tour's vehicle type is set just below what the tour reports *)
 | MLimitDistance (k : nat)
 | MLimitDuration (k : nat)
-| MLimitSize (k : nat).
+| MLimitSize (k : nat)
+(* misplaced break *)
+| MBreakLoc (k s a : nat) (l : Z)       (* activity a (a break) of stop s of tour k is reported at location l, which is not its stop's *)
+| MBreakDup (k s a : nat)               (* the break activity a of stop s of tour k is taken twice (copy right behind it) *)
+| MBreakDrop (k s a : nat)              (* the break activity a of stop s of tour k disappears (with its stop when it is alone there) *).
 
 Definition dup_last {A} (l : list A) : list A := match rev l with [] => l | x :: _ => l ++ [x] end.
 Definition dup_nth {A} (i : nat) (l : list A) : list A := match nth_error l i with Some x => l ++ [x] | None => l end.
@@ -143,6 +161,16 @@ Definition mutS (m : mutation) (S : ssolution) : ssolution :=
   | MStatTour k f d => set_tours (upd_nth k (set_tstat (add_stat f d))) S
   | MStatTotal f d => mkSSolution (add_stat f d (sl_stat S)) (sl_tours S) (sl_unassigned S)
   | MLimitDistance _ | MLimitDuration _ | MLimitSize _ => S
+  | MBreakLoc k s a l => upd_stop k s (set_acts (upd_nth a (set_loc l))) S
+  | MBreakDup k s a => upd_stop k s (set_acts (dup_at a)) S
+  | MBreakDrop k s a =>
+    match stop_at S k s with
+    | Some st => match ss_acts st with
+                 | [_] => set_tours (upd_nth k (set_stops (del_nth s))) S
+                 | _ => upd_stop k s (set_acts (del_nth a)) S
+                 end
+    | None => S
+    end
   end.
 
 Definition mutP (m : mutation) (P : pproblem) (S : ssolution) : pproblem :=
@@ -192,6 +220,9 @@ Definition applicable_b (m : mutation) (P : pproblem) (S : ssolution) : bool :=
   | MStatTour k f d => negb (d =? 0) && (f <? 7)%nat && some_b (tour_at S k) (fun _ => true)
   | MStatTotal f d => negb (d =? 0) && (f <? 7)%nat
   | MLimitDistance k | MLimitDuration k | MLimitSize k => some_b (tour_at S k) (fun _ => true)
+  | MBreakLoc k s a l =>
+    some_b (stop_at S k s) (fun st => negb (l =? ss_loc st) && some_b (nth_error (ss_acts st) a) is_break_sact)
+  | MBreakDup k s a | MBreakDrop k s a => some_b (stop_at S k s) (fun st => some_b (nth_error (ss_acts st) a) (long_break st))
   end.
 
 (* ------------------------------------------------------------------ fingerprints (mirror validation) *)
